@@ -15,7 +15,7 @@ TYPES = {
                        ('chr2', 1000000, 1000001, 'x', 1000, '.'), ('c', 5, 6, 'nn', 7, '+')]),
     'bedgraph': dict(cls='BedGraph', fmt='bedgraph',
                      fields=[('chromosome', 'str'), ('start', 'int'), ('stop', 'int'), ('value', 'float')],
-                     rows=[('c', 0, 10, 0.5), ('chr10', 12345, 99, -2.25), ('chr2', 7, 8, 1000.0), ('c', 1, 2, 0.0025)]),
+                     rows=[('c', 0, 10, 0.5), ('chr10', 12345, 99, -2.25), ('chr2', 7, 8, 1e19), ('c', 1, 2, 0.0025)]),
     'narrowpeak': dict(cls='NarrowPeak', fmt='narrowpeak',
                        fields=[('chromosome', 'str'), ('start', 'int'), ('stop', 'int'), ('name', 'str'), ('score', 'int'),
                                ('strand', 'strand'), ('signal_value', 'float'), ('p_value', 'float'), ('q_value', 'float'),
